@@ -16,6 +16,7 @@ package main
 import (
 	"bufio"
 	"context"
+	"encoding/json"
 	"errors"
 	"flag"
 	"fmt"
@@ -34,6 +35,7 @@ import (
 
 	coercion "github.com/element-of-surprise/coercion"
 	"github.com/element-of-surprise/coercion/workflow"
+	"github.com/element-of-surprise/coercion/workflow/storage/cosmosdb"
 	"github.com/google/uuid"
 )
 
@@ -402,6 +404,87 @@ func famFault(e *env, root *core.Rand, n int) {
 	}
 }
 
+// ---- family bigbatch (cosmosdb): plans of more than a hundred items; a batch that contains a poisoned item is
+// refused as a whole. Create must be ONE batch: whichever item is poisoned - among the first hundred in
+// emission order or beyond - Create fails and NOTHING is left; Delete with a poisoned item fails and
+// EVERYTHING is left. ----
+func itemIDs(p *workflow.Plan) []string {
+	raw, _, err := cosmosdb.VerifPlanItems(p)
+	if err != nil {
+		fmt.Fprintln(os.Stderr, "VerifPlanItems", err)
+		os.Exit(2)
+	}
+	ids := make([]string, len(raw))
+	for i, it := range raw {
+		var m struct {
+			ID string `json:"id"`
+		}
+		if err := json.Unmarshal(it, &m); err != nil || m.ID == "" {
+			fmt.Fprintln(os.Stderr, "item without id", err)
+			os.Exit(2)
+		}
+		ids[i] = m.ID
+	}
+	return ids
+}
+
+func famBigBatch(e *env, root *core.Rand, n int) {
+	for i := 0; i < n; i++ {
+		r := root.Fork(uint64(8000 + i))
+		rBig := r.Fork(1) // fixed before r advances: every mk() is the same plan
+		mk := func() *workflow.Plan { return storelib.BigPlan(rBig.Fork(0)) }
+		other := maker(r.Fork(2), 0, 0.1)
+		order := itemIDs(mk())
+		nItems := len(order)
+		if nItems <= 110 {
+			fmt.Fprintln(os.Stderr, "big plan too small:", nItems)
+			os.Exit(2)
+		}
+		for mode := 0; mode < 3; mode++ {
+			b, _, rec := open("cosmos-fake")
+			ref := mk()
+			rec.IDs = []uuid.UUID{ref.ID, other().ID}
+			rec.Create(other(), other(), "create-other")
+			var k int
+			switch mode {
+			case 0: // beyond the first hundred (also beyond the second, when there is one)
+				k = 100 + r.Intn(nItems-101)
+				if nItems > 215 && r.Chance(0.5) {
+					k = 200 + r.Intn(nItems-201)
+				}
+			case 1: // among the first hundred
+				k = r.Intn(100)
+			case 2: // any item, for Delete
+				k = r.Intn(nItems)
+			}
+			objs := storelib.ObjectsOf(ref)
+			st := storelib.RandState(r.Fork(uint64(30 + mode)))
+			if mode < 2 {
+				b.Cosmos.SetPoisonItem(order[k])
+				err := b.Vault.Create(ctx, mk())
+				b.Cosmos.SetPoisonItem("")
+				rec.Created_(mk(), err, "create-with-refused-item", "(CCreateStage 0)")
+				// no item of the plan may be left: patches of early and late objects must not find anything
+				first := storelib.Actions(ref)[0].A
+				rec.UpdateAction(ref.ID, first.ID, first.Plugin, st, nil, nil)
+				rec.UpdateBlock(ref.ID, objs.Blocks[0].ID, st)
+				rec.UpdateSequence(ref.ID, objs.Seqs[len(objs.Seqs)-1].ID, st)
+				rec.Create(mk(), mk(), "create-clean")
+			} else {
+				rec.Create(mk(), mk(), "create")
+				b.Cosmos.SetPoisonItem(order[k])
+				err := b.Vault.Delete(ctx, ref.ID)
+				b.Cosmos.SetPoisonItem("")
+				rec.Deleted_(ref.ID, err, "delete-with-refused-item", "(CDeleteStage 0)")
+				rec.UpdateBlock(ref.ID, objs.Blocks[0].ID, st) // still there: the patch succeeds
+				rec.Delete(ref.ID)
+			}
+			e.emit("bigbatch", i, "cosmos-fake", rec, true, map[string]any{"mode": mode, "items": nItems, "refused_item_index": k}, map[string]any{"mode": mode})
+			closeVault(b, rec)
+		}
+	}
+}
+
 // ---- family kill (thorough): child process killed during Create on a file-backed store ----
 func childKill(dir string, seed uint64, idx int) {
 	set := storelib.NewSet()
@@ -505,6 +588,7 @@ func main() {
 	nInter := flag.Int("interleave", 18, "cases")
 	nCollide := flag.Int("collide", 10, "cases")
 	nFault := flag.Int("fault", 12, "cases")
+	nBig := flag.Int("bigbatch", 2, "big plans for the cosmosdb batch family (three cases each)")
 	nKill := flag.Int("kill", 0, "cases (thorough)")
 	out := flag.String("out", "-", "output file (JSONL)")
 	childDir := flag.String("child-kill", "", "internal: run as the child of the kill family on this directory")
@@ -535,5 +619,6 @@ func main() {
 	famInterleave(e, root, *nInter, all)
 	famCollide(e, root, *nCollide, sq)
 	famFault(e, root, *nFault)
+	famBigBatch(e, root, *nBig)
 	famKill(e, root, *nKill)
 }
